@@ -151,9 +151,14 @@ def cases(rng, tier):
 
 # ---------------------------------------------------------------------------------------------- real code
 
+_CODE = {}
+
+
 def fresh_registry():
     """the state of a new process: every module of the bitmap package is executed again, base classes first (new decoder objects,
-    new module-level names in decoder.py, the per-depth decoder modules and the registry module alike)"""
+    new module-level names in decoder.py, the per-depth decoder modules and the registry module alike). Same effect as
+    importlib.reload on each of them (the module's code runs again in the module's namespace); the compiled code objects are
+    cached because PYTHONDONTWRITEBYTECODE makes reload() recompile the source every time."""
     import importlib, sys as _sys
     importlib.import_module("drxtract.bitd.bitd2bmp")
     names = sorted(n for n in _sys.modules if n.startswith("drxtract.bitd.") and _sys.modules[n] is not None)
@@ -161,8 +166,17 @@ def fresh_registry():
              + ["drxtract.bitd.bitd2bmp"])
     m = None
     for n in order:
-        if n in _sys.modules:
-            m = importlib.reload(_sys.modules[n])
+        m = _sys.modules.get(n)
+        if m is None:
+            continue
+        f = getattr(m, "__file__", None)
+        if not f or not f.endswith(".py"):
+            m = importlib.reload(m)
+            continue
+        if n not in _CODE:
+            with open(f, "rb") as fh:
+                _CODE[n] = compile(fh.read(), f, "exec")
+        exec(_CODE[n], m.__dict__)
     return m
 
 
